@@ -4,7 +4,7 @@
     which the integrand was called).  [val], [wrn], [trc] are the three projections. *)
 From Coq Require Import Reals ZArith List Lra Bool Arith.
 From Coquelicot Require Import Coquelicot.
-From LP Require Import Num NumR C03_Model C03_Proofs C03_Proofs_Remainder C03_Proofs_Seq C03_Proofs_More C03_Proofs_Arith C03_Proofs_Bound C03_Proofs_Post.
+From LP Require Import Num NumR C03_Model C03_Proofs C03_Proofs_Remainder C03_Proofs_Seq C03_Proofs_More C03_Proofs_Arith C03_Proofs_Bound C03_Proofs_Post C03_Model2 C03_Proofs_Two.
 Import ListNotations.
 Local Open Scope R_scope.
 
@@ -554,3 +554,91 @@ Print Assumptions C03_value_bounded.
 Example C03_value_bounded_premises :
   (forall x, Rabs ((fun _ : R => 3) x) <= 3) /\ val (integrate ROps (fun _ => 3) 0 2 1 0) = 6.
 Proof. exact value_bound_nonvacuous. Qed.
+
+
+(** * Seventh pass: what Integrate writes besides its value, the method guard, and the nested integrators (coq/C03_Model2.v,
+    coq/C03_Proofs_Two.v).  [integrate_report] is Integrate with all its output: ((value, non-convergence warning, abscissae),
+    (swap notice of Check_Integration_Limits on stderr, "Result is nan." notice, "Result is inf." notice)); the check compares
+    all of it with the library (op diag). *)
+
+(** "observe_at: stdout non-convergence warning" - the report's value, warning and abscissae are those of [integrate], in every
+    arithmetic: every theorem above is a theorem about the reported call. *)
+Theorem C03_report_is_integrate {T : Type} (Ops : NumOps T) (f : T -> T) (a b eps : T) (depth : Z) :
+  fst (integrate_report Ops f a b eps depth) = integrate Ops f a b eps depth.
+Proof. exact (report_agrees Ops f a b eps depth). Qed.
+Print Assumptions C03_report_is_integrate.
+
+(** "limit ordering, sign flip" (mechanism): the swap notice is printed exactly for a > b; of the two orientations of two
+    distinct ordered limits exactly one prints it; in every arithmetic. *)
+Theorem C03_swap_notice {T : Type} (Ops : NumOps T) (f : T -> T) (a b eps : T) (depth : Z) :
+  fst (fst (snd (integrate_report Ops f a b eps depth))) = negb (neqb Ops a b) && ngtb Ops a b /\
+  (neqb Ops a b = false -> neqb Ops b a = false -> nltb Ops a b = negb (nltb Ops b a) ->
+   fst (fst (snd (integrate_report Ops f a b eps depth))) = negb (fst (fst (snd (integrate_report Ops f b a eps depth))))).
+Proof. exact (conj (swap_notice_iff Ops f a b eps depth) (swap_notice_once Ops f a b eps depth)). Qed.
+Print Assumptions C03_swap_notice.
+
+Example C03_swap_notice_premises : neqb ROps 0 1 = false /\ neqb ROps 1 0 = false /\ nltb ROps 0 1 = negb (nltb ROps 1 0).
+Proof. exact (conj (proj1 C03_swap_negates_any_arithmetic_premises)
+               (conj (proj1 (proj2 C03_swap_negates_any_arithmetic_premises)) (proj1 (proj2 (proj2 C03_swap_negates_any_arithmetic_premises))))). Qed.
+
+(** the nan and inf notices are never both printed, and nothing is printed for limits that compare equal; every arithmetic *)
+Theorem C03_diag_exclusive {T : Type} (Ops : NumOps T) (f : T -> T) (a b eps : T) (depth : Z) :
+  let '(_, (notice, wnan, winf)) := integrate_report Ops f a b eps depth in
+  wnan && winf = false /\ (neqb Ops a b = true -> notice = false /\ wnan = false /\ winf = false).
+Proof. exact (diag_exclusive Ops f a b eps depth). Qed.
+Print Assumptions C03_diag_exclusive.
+
+(** over the reals: no nan notice, and no inf notice (|result| > DBL_MAX) for an integrand bounded by M when (17/15)|b-a| M does
+    not exceed the largest double - the a-priori criterion the check uses for the region "estimate-overflow" *)
+Theorem C03_diag_real (f : R -> R) (M a b eps : R) (depth : Z) :
+  (forall x, Rabs (f x) <= M) -> 17 / 15 * (Rabs (b - a) * M) <= dbl_max ROps ->
+  snd (integrate_report ROps f a b eps depth) = (Rltb b a && negb (Reqb a b), false, false).
+Proof. exact (diag_real f M a b eps depth). Qed.
+Print Assumptions C03_diag_real.
+
+Example C03_diag_real_premises :
+  (forall x, Rabs ((fun _ : R => 3) x) <= 3) /\ 17 / 15 * (Rabs (2 - 0) * 3) <= dbl_max ROps.
+Proof. exact diag_real_premises. Qed.
+
+(** the guard of the string overload: an unrecognised method name ends the process whatever the other arguments,
+    "Adaptive-Simpson" is answered by [integrate_method]; every arithmetic *)
+Theorem C03_method_guard {T : Type} (Ops : NumOps T) (f : T -> T) (a b : T) :
+  integrate_named Ops MUnknown f a b = Exit /\
+  integrate_named Ops MAdaptiveSimpson f a b = Ok (Some (integrate_method Ops f a b)) /\
+  integrate_named Ops MOther f a b <> Exit.
+Proof. exact (named_guard Ops f a b). Qed.
+Print Assumptions C03_method_guard.
+
+(** Integrate_2D(func,x1,x2,y1,y2,"Adaptive-Simpson") - the integrator nested in itself: "evaluated only inside the closed
+    interval and at most ... times" for both variables: every point (x,y) at which func is called lies in the closed rectangle
+    and there are at most (2^22+4)^2 of them, for every func. *)
+Theorem C03_2d_points_inside_and_count (f : R -> R -> R) (x1 x2 y1 y2 : R) :
+  List.Forall (fun p => Rmin x1 x2 <= fst p <= Rmax x1 x2 /\ Rmin y1 y2 <= snd p <= Rmax y1 y2) (trc (integrate_2d ROps f x1 x2 y1 y2)) /\
+  (length (trc (integrate_2d ROps f x1 x2 y1 y2)) <= (2 ^ 22 + 4) * (2 ^ 22 + 4))%nat.
+Proof. exact (i2d_inside_and_count f x1 x2 y1 y2). Qed.
+Print Assumptions C03_2d_points_inside_and_count.
+
+(** ... in every arithmetic each such point is (an abscissa of the outer call, an abscissa of the inner call made there) *)
+Theorem C03_2d_points_any_arithmetic {T : Type} (Ops : NumOps T) (f : T -> T -> T) (x1 x2 y1 y2 : T) (p : T * T) :
+  List.In p (snd (integrate_2d Ops f x1 x2 y1 y2)) ->
+  List.In (fst p) (snd (integrate_method Ops (fun x => fst (fst (integrate_method Ops (fun y => f x y) y1 y2))) x1 x2)) /\
+  List.In (snd p) (snd (integrate_method Ops (fun y => f (fst p) y) y1 y2)).
+Proof. exact (i2d_points Ops f x1 x2 y1 y2 p). Qed.
+Print Assumptions C03_2d_points_any_arithmetic.
+
+(** "exact integral of every polynomial of degree five or less" in two variables: func(x,y) of degree <= 5 in y with
+    coefficients c_k(x) such that the inner integral is a polynomial of degree <= 5 in x (e.g. sum c_ij x^i y^j, i,j <= 5):
+    Integrate_2D returns the iterated integral; limits in any orientation or equal. *)
+Theorem C03_2d_quintic_exact (c0 c1 c2 c3 c4 c5 : R -> R) (d0 d1 d2 d3 d4 d5 x1 x2 y1 y2 : R) :
+  (forall x, RInt (fun y => c0 x + c1 x * y + c2 x * y ^ 2 + c3 x * y ^ 3 + c4 x * y ^ 4 + c5 x * y ^ 5) y1 y2
+             = d0 + d1 * x + d2 * x ^ 2 + d3 * x ^ 3 + d4 * x ^ 4 + d5 * x ^ 5) ->
+  val (integrate_2d ROps (fun x y => c0 x + c1 x * y + c2 x * y ^ 2 + c3 x * y ^ 3 + c4 x * y ^ 4 + c5 x * y ^ 5) x1 x2 y1 y2)
+  = RInt (fun x => d0 + d1 * x + d2 * x ^ 2 + d3 * x ^ 3 + d4 * x ^ 4 + d5 * x ^ 5) x1 x2.
+Proof. exact (i2d_quintic_exact c0 c1 c2 c3 c4 c5 d0 d1 d2 d3 d4 d5 x1 x2 y1 y2). Qed.
+Print Assumptions C03_2d_quintic_exact.
+
+(** non-vacuity: func(x,y) = x y over [0,1] x [0,2]: inner integral 2 x, value 1 *)
+Example C03_2d_quintic_xy :
+  (forall x, RInt (p5 0 x 0 0 0 0) 0 2 = p5 0 2 0 0 0 0 x) /\
+  val (integrate_2d ROps (fun x y => p5 0 x 0 0 0 0 y) 0 1 0 2) = 1.
+Proof. exact i2d_quintic_xy. Qed.
